@@ -2556,3 +2556,262 @@ func runC09ZeroResults(c *CaseCtx, r *rand.Rand) (res CaseResult) {
 	res.Sample = det()
 	return res
 }
+
+// ---------------------------------------------------------------------------
+// C06/C02: histories over a dependency CYCLE of multi-input converters, some
+// of them run-once
+// ---------------------------------------------------------------------------
+
+// runOnceCycleHistory: converters X:(A,C)->B, Y:(A,E)->C, Z:(B)->E depend on
+// each other in a cycle; any subset is run-once. Earlier calls of a history
+// break the cycle with extra inputs (and so execute and memoize the run-once
+// ones); later calls, and Redefine restricted to A, have the cycle as their
+// only route. Every call returns within the nesting bound; a target whose
+// type is not in the closure of the supplied types under the converters is
+// refused (error, target not run).
+func runOnceCycleHistory(c *CaseCtx, r *rand.Rand) (res CaseResult) {
+	t := distinctTypes(r, 4)
+	A, B, C, E := t[0], t[1], t[2], t[3]
+	q := c.Idx / 45
+	mask := []int{3, 7, 1, 2, 5, 6, 0, 3}[q%8]
+	res.Key = fmt.Sprintf("once-cycle %v once-mask=%d", t, mask)
+	res.NonTrivial = true
+	res.obs("family.once-cycle-history", 1)
+	meter := &depthMeter{limitDepth: 60, limitEntries: 200000}
+	casePointHook = meter.hook
+	defer func() { casePointHook = nil }()
+	w := NewWorld()
+	specs := []FuncSpec{posFn([]int{A, C}, []int{B}), posFn([]int{A, E}, []int{C}), posFn([]int{B}, []int{E})}
+	var convs []am.Arg
+	for i := range specs {
+		specs[i].Once = mask&(1<<uint(i)) != 0
+		b, err := w.Build(i, specs[i], r)
+		if err != nil {
+			res.Skip = "instantiate"
+			return res
+		}
+		convs = append(convs, am.ConverterFunc(b.Func))
+	}
+	targets := map[int]*Built{}
+	for i, ty := range []int{B, C, E} {
+		b, err := w.Build(-1-i, posFn([]int{ty}, nil), r)
+		if err != nil {
+			res.Skip = "instantiate"
+			return res
+		}
+		targets[ty] = b
+	}
+	closure := func(have map[int]bool) map[int]bool {
+		d := map[int]bool{}
+		for k := range have {
+			d[k] = true
+		}
+		for ch := true; ch; {
+			ch = false
+			for _, sp := range specs {
+				ok := true
+				for _, l := range sp.In {
+					ok = ok && d[l.Type]
+				}
+				if ok && !d[sp.Out[0].Type] {
+					d[sp.Out[0].Type], ch = true, true
+				}
+			}
+		}
+		return d
+	}
+	type step struct {
+		want     int
+		extra    []int
+		redefine bool
+	}
+	var steps []step
+	if q%2 == 0 {
+		// the cycle is broken first at C, then at E; then nothing breaks it
+		steps = []step{{want: B, extra: []int{C}}, {want: C, extra: []int{E}}, {want: B, redefine: q%4 == 2}}
+	}
+	for n := 3 + r.Intn(5); len(steps) < n+3; {
+		st := step{want: []int{B, C, E}[r.Intn(3)], redefine: r.Intn(5) == 0}
+		for _, ty := range []int{B, C, E} {
+			if ty != st.want && r.Intn(3) == 0 {
+				st.extra = append(st.extra, ty)
+			}
+		}
+		steps = append(steps, st)
+	}
+	var hist []string
+	for k, st := range steps {
+		have := map[int]bool{A: true}
+		args := append([]am.Arg{}, convs...)
+		args = append(args, InputArg(Label{Type: A}, w.FreshInput(k, A, Label{Type: A})))
+		for _, ty := range st.extra {
+			have[ty] = true
+			if !st.redefine {
+				args = append(args, InputArg(Label{Type: ty}, w.FreshInput(k, ty, Label{Type: ty})))
+			}
+		}
+		tgt := targets[st.want]
+		fi := map[int]int{B: -1, C: -2, E: -3}[st.want]
+		ranBefore := w.Execs(fi)
+		derivable := closure(have)[st.want]
+		var o Outcome
+		api := "call"
+		if st.redefine {
+			api = "redefine"
+			allowed := have
+			args = append(convs[:3:3], am.FilterInput(func(v am.Value) bool {
+				for ty := range allowed {
+					if v.Type == types[ty] {
+						return true
+					}
+				}
+				return false
+			}))
+			o = DoRedefine(w, tgt.Func, args)
+		} else {
+			o = DoCall(w, tgt.Func, args)
+		}
+		hist = append(hist, fmt.Sprintf("%s want=%s have=A+%v -> %s", api, typeName(st.want), st.extra, o.Class))
+		det := map[string]interface{}{"case": res.Key, "history": strings.Join(hist, " ; "), "err": firstLine(errStr(o.Err)), "panic": o.Panic}
+		res.Evals++
+		res.obs("api."+api, 1)
+		res.obs(fmt.Sprintf("class.%s.%s.derivable=%v", api, o.Class, derivable), 1)
+		res.max("max_reach_depth", int64(meter.maxDepth))
+		if o.Class == ClsPanic {
+			key := "panic/" + crashKey(o.Panic)
+			if meter.tripped != "" {
+				key = "bound/" + meter.tripped
+			}
+			res.violate("C06", key, api+" panicked: "+o.Panic, det)
+			return res
+		}
+		meter.reset()
+		ran := w.Execs(fi) - ranBefore
+		if !derivable {
+			res.obs("cycle_only_requests", 1)
+			if o.Err == nil {
+				res.violate("C02", "underivable-accepted", fmt.Sprintf("%s: the wanted type is only reachable round the cycle, yet no error was returned", api), det)
+				return res
+			}
+			if ran != 0 {
+				res.violate("C02", "underivable-target-ran", fmt.Sprintf("%s: the target ran %d times although its argument cannot be derived", api, ran), det)
+				return res
+			}
+		}
+		if derivable && o.Err != nil {
+			res.violate("C05", "incomplete/"+o.Class, fmt.Sprintf("%s: the wanted type is in the closure of the supplied types under the converters, yet the request failed", api), det)
+			return res
+		}
+		if derivable && !st.redefine && ran != 1 {
+			res.violate("C04", "target-count", fmt.Sprintf("successful call executed the target %d times", ran), det)
+			return res
+		}
+		if st.redefine && (ran != 0 || len(o.Events) != 0) {
+			res.violate("C09", "executed-during-redefine", "bodies executed during Redefine: "+eventsStr(o.Events), det)
+			return res
+		}
+		for i := range specs {
+			if specs[i].Once && w.Execs(i) > 1 {
+				res.violate("C11", "once-reexecuted", fmt.Sprintf("run-once converter c%d executed %d times over the history", i, w.Execs(i)), det)
+				return res
+			}
+		}
+	}
+	res.Sample = map[string]interface{}{"case": res.Key, "history": strings.Join(hist, " ; ")}
+	return res
+}
+
+// ---------------------------------------------------------------------------
+// C05: requirements re-labelled through the pointers ValueSet.Named / Typed
+// hand out ("to make modifications")
+// ---------------------------------------------------------------------------
+
+// runC05Retagged: a chain T0 -> c1 -> T1 ("mid") -> c2 -> T2 -> target. Over a
+// history, requirements of the functions are given a subtype through
+// Input()/Output() pointers after construction (and after earlier calls);
+// each later call supplies inputs matching the CURRENT labels, so the target
+// stays derivable: every call succeeds and the target sees the value
+// derived from the input of that call.
+func runC05Retagged(c *CaseCtx, r *rand.Rand) (res CaseResult) {
+	res.NonTrivial = true
+	q := c.Idx / 43
+	res.Key = fmt.Sprintf("retagged-requirements order=%d", q%6)
+	res.obs("family.retagged-requirements", 1)
+	res.obs("in_scope.a", 1)
+	type mid struct {
+		am.Struct
+		Mid T1
+	}
+	var seen int64
+	mk := func(fn interface{}) *am.Func {
+		f, err := am.NewFunc(fn)
+		if err != nil {
+			panic(err)
+		}
+		return f
+	}
+	c1 := mk(func(a T0) (mid, error) { return mid{Mid: T1{ID: a.ID + 1000}}, nil })
+	c2 := mk(func(in struct {
+		am.Struct
+		Mid T1
+	}) T2 {
+		return T2{ID: in.Mid.ID + 1000000}
+	})
+	target := mk(func(x T2) int64 { seen = x.ID; return x.ID })
+	in0 := func(id int64) am.Arg { return am.Typed(T0{ID: id}) }
+	var hist []string
+	next := int64(c.Idx%1000)*100 + 1
+	call := func(what string, want int64, args ...am.Arg) bool {
+		seen = -1
+		o := DoCall(nil, target, append(args, am.ConverterFunc(c1, c2)))
+		res.Evals++
+		hist = append(hist, what+"->"+o.Class)
+		det := map[string]interface{}{"case": res.Key, "history": strings.Join(hist, " ; "), "err": firstLine(errStr(o.Err)), "panic": o.Panic}
+		if o.Class == ClsPanic {
+			res.violate("C06", "panic/call-"+crashKey(o.Panic), "call panicked: "+o.Panic, det)
+			return false
+		}
+		if o.Class != ClsOK {
+			res.violate("C05", "incomplete/"+o.Class, "the supplied inputs match the functions' current requirements along an acyclic chain, but the call ended with "+o.Class+": "+firstLine(errStr(o.Err)), det)
+			return false
+		}
+		if seen != want {
+			res.violate("C01", "binding/other", fmt.Sprintf("the target saw %d, the value derived from this call's input is %d", seen, want), det)
+			return false
+		}
+		return true
+	}
+	if !call("baseline", next+1001000, in0(next)) {
+		return res
+	}
+	// the target's own parameter is re-labelled last: a chain call after it
+	// would need c2's (unlabelled) output to satisfy a subtyped parameter,
+	// which the property does not promise
+	steps := [][]int{{0, 1, 2}, {1, 0, 2}, {0, 2}, {1, 2}, {1, 0}, {0, 1}}[q%6]
+	for _, st := range steps {
+		next++
+		switch st {
+		case 0: // the chain's entry requirement gets a subtype
+			sub := []string{"decimal", "x", "Ab"}[r.Intn(3)]
+			c1.Input().Typed(reflect.TypeOf(T0{})).Subtype = sub
+			in0 = func(id int64) am.Arg { return am.TypedSubtype(T0{ID: id}, sub) }
+			if !call("entry-subtype="+sub, next+1001000, in0(next)) {
+				return res
+			}
+		case 1: // the named value between the two converters, both sides
+			c1.Output().Named("mid").Subtype = "tcp"
+			c2.Input().Named("mid").Subtype = "tcp"
+			if !call("mid-subtype", next+1001000, in0(next)) {
+				return res
+			}
+		case 2: // the target's own parameter, supplied exactly
+			target.Input().Typed(reflect.TypeOf(T2{})).Subtype = "fin"
+			if !call("target-subtype-exact", next, am.TypedSubtype(T2{ID: next}, "fin")) {
+				return res
+			}
+		}
+		res.obs("calls_after_retagging", 1)
+	}
+	res.Sample = map[string]interface{}{"case": res.Key, "history": strings.Join(hist, " ; ")}
+	return res
+}
